@@ -133,6 +133,8 @@ INFO = {
  'C13-m7': ("the replay branch of Channel.Get extracted into a helper that uses nil as its nothing-to-replay sentinel", 'an interface-typed source carrying a nil value, a Rollback covering it and a re-read reaching it: the nil is skipped, a fresh value is returned ahead of (and then instead of) the replays'),
  'C17-m7': ("registration hoisted above the start block and the nil-function check moved into the start helper", 'Do(nil) on an idle Worker recovered by its caller, then ordinary use: a phantom holder keeps the next instance from ever being stopped'),
  'C07-m7': ("the nil-yield guard and the already-stopped guard of the SubscribeContext iterator merged (same site and effect as C06-m7, written independently)", 'a SubscribeContext context cancelled before its iterator is used, then the iterator called with a nil yield (panic recovered) while another subscriber stands: second unsubscribe, later negative-subscribers panic and a broken instance'),
+ 'C03-m7': ("the cleaner is evaluated with the buffer lock released, behind a staleness check on size, offset and consumer COUNT only", 'one consumer closes and another is created while the evaluation is in progress (count unchanged): the stale shift is applied and evicts values the newcomer, which committed nothing, has not read'),
+ 'C03-m8': ("Buffer.Slice stops copying once the buffer is closed", 'Close, Slice, the caller overwrites the returned slice, Slice again: the retained contents have changed'),
 
 }
 
